@@ -6,7 +6,7 @@ CONSTANTS
   NCh = 1
   BitsSel = "2-4-8"
   CMin = 1
-  CMax = 66
+  CMax = 48
   Extra = 0
 INVARIANT InvLayerComposition
 INVARIANT InvLayerPromotes
